@@ -803,6 +803,15 @@ pub fn check(case: &SchedCase, acc: &mut Acc, c11: bool) -> (Check, Vec<ChoicePo
             return fail(v.sig.clone(), format!("{}; case {}", v.msg, serde_json::to_string(case).unwrap_or_default()));
         }
         // Secondary monitors on the consumer's trace.
+        if c11 && case.cfg.sample && out.trace.ended_err().is_some() {
+            // A sampled exact hint of zero at or before the poll that delivered the abort error.
+            if let Some(i) = out.trace.steps.iter().position(|s| s.upper == Some(0)) {
+                return fail(
+                    "abort:empty-size-hint-while-error-pending",
+                    format!("size_hint() was exactly 0 at poll {i} although the abort error came afterwards; case {}", serde_json::to_string(case).unwrap_or_default()),
+                );
+            }
+        }
         if case.cfg.sample {
             let r = check_eos_truthful(&out.trace, "scheduled-streaming");
             if let Err(f) = r {
